@@ -179,8 +179,8 @@ def rule_exp(prop, repo):
         hf = Frame(b, [])
         hf.env[0] = dom.E(1)
         rs = ex.run(b, [Ref(hf, 0)])
-        vals = [v.fields[0][1] if isinstance(v, Adt) and v.variant == "Some" and isinstance(v.fields[0], tuple) else None for v, frx in rs
-                if not (isinstance(v, Adt) and v.variant == "None" and frx.env.get("__zero"))]
+        vals = [v.fields[0][1] if isinstance(v, Adt) and v.variant in ("Some", "Ok") and isinstance(v.fields[0], tuple) else None for v, frx in rs
+                if not (isinstance(v, Adt) and v.variant in ("None", "Err") and frx.env.get("__zero"))]
         want = ((q ** 6 - 1) * (q ** 2 + 1)) % M
         R.check(vals and all(x == want for x in vals), "%s:exp:%s" % (prop, b.rec["path"]), "easy part is not x^((q^6−1)(q^2+1))", b.file_line(), b.rec["path"],
                 sample={"fn": b.rec["path"], "equals_(q^6-1)(q^2+1)": True})
